@@ -5,7 +5,12 @@
    as the previous ACK: what RFC 5681 and the code call a duplicate) that
    MANDATES the fast retransmit, and a LOOSE one (same ack, no data) that only
    JUSTIFIES an early retransmission, so that neither an over- nor an
-   under-count can produce a false alarm. *)
+   under-count can produce a false alarm.
+   Segments are identified by what they carry, not by where they start: a peer that is not this stack may acknowledge
+   the middle of a segment or shrink its window, after which the same bytes go out again with other boundaries
+   (the remainder of a partially acknowledged segment, a segment cut down to a smaller window).  Such an emission is a
+   RETRANSMISSION (every byte of it was on the wire before), its "previous transmission" is the last emission that
+   carried its first byte, and it does not add a segment to the flight. *)
 EXTENDS Integers, FiniteSets, Sequences, TLC
 LOCAL Max2(x, y) == IF x > y THEN x ELSE y
 C5Init0 == [dataSegs |-> 0,        \* distinct data segments emitted before the first ACK after data arrived
@@ -15,7 +20,8 @@ C5Init0 == [dataSegs |-> 0,        \* distinct data segments emitted before the 
             acks |-> 0,           \* duplicate ACKs received so far (loose count: the generous side of the Reno bound)
             segsAcked |-> 0,      \* data segments acknowledged so far
             sent |-> {},          \* <<off, end>> of distinct data segments emitted
-            lastTx |-> <<>>,      \* off -> time of the last emission starting at off
+            lastTx |-> <<>>,      \* <<off, end>> -> time of the last emission of exactly that segment
+            finSent |-> FALSE,    \* a FIN has been emitted (it occupies the sequence number after the last data byte)
             needRetx |-> -1,      \* offset the next data emission MUST start at (third strict duplicate ACK), or -1
             mayRetx |-> FALSE,    \* three loose duplicate ACKs arrived: one early retransmission of the head is justified
             fresh |-> FALSE,      \* an ACK advanced una and the new head has not been retransmitted since (partial ACK / go-back-N credit)
@@ -23,7 +29,12 @@ C5Init0 == [dataSegs |-> 0,        \* distinct data segments emitted before the 
             rtoPrev |-> -1,       \* time of the last timeout retransmission if NOTHING has arrived since (the peer is silent), else -1
             rtoGap |-> -1]        \* interval between the last two timeout retransmissions of that silent period, or -1
 
-IsRetx(c, off) == off \in DOMAIN c.lastTx
+Covers(s, off) == s[1] <= off /\ off < s[2]
+IsRetx(c, off) == \E s \in c.sent : Covers(s, off)           \* the byte at off has been on the wire before
+\* time of the last emission that carried the byte at off (only used when IsRetx(c, off))
+PrevTx(c, off) == LET T == {c.lastTx[s] : s \in {x \in c.sent : Covers(x, off)}} IN CHOOSE m \in T : \A x \in T : x <= m
+\* segments not wholly contained in another emitted segment: re-cut copies of bytes already in flight are not counted twice
+Maximal(S) == {s \in S : ~\E r \in S : r # s /\ r[1] <= s[1] /\ s[2] <= r[2]}
 \* A TIMEOUT retransmission: the earliest unacknowledged segment is sent again and nothing justifies doing so early:
 \* not the fast retransmit, no three duplicate ACKs, not the first retransmission of a head the left edge has moved to
 \* while loss recovery is in progress (partial-ACK retransmission, go-back-N after a timeout).
@@ -34,12 +45,12 @@ IsTimeoutRetx(c, off) == IsRetx(c, off) /\ off = c.una /\ c.needRetx # off /\ ~c
 MaxRTO == 60000000
 BackoffSlack(g) == IF g \div 4 > 60000 THEN g \div 4 ELSE 60000
 BackoffOK(c, t) == c.rtoGap >= 0 => t - c.rtoPrev >= (IF 2 * c.rtoGap > MaxRTO THEN MaxRTO ELSE 2 * c.rtoGap) - BackoffSlack(c.rtoGap)
-InFlight(c, newsent) == Cardinality({s \in newsent : s[2] > c.una})
+InFlight(c, newsent) == Cardinality(Maximal({s \in newsent : s[2] > c.una}))
 
 \* the C05 clauses for an emitted data segment [off, off+len) at time t
 C5EmitOK(c, off, len, t, kf7, reno) ==
   /\ (c.needRetx >= 0 => off = c.needRetx)                            \* after the third duplicate ACK the head goes out first
-  /\ IsTimeoutRetx(c, off) => (t - c.lastTx[off] >= 200000            \* never sooner than 200 ms after its previous transmission
+  /\ IsTimeoutRetx(c, off) => (t - PrevTx(c, off) >= 200000            \* never sooner than 200 ms after its previous transmission
                                \/ (kf7 /\ c.recover >= 0))            \* known finding F7: timeout shortly after a fast retransmit
   \* while the peer stays silent: exactly one segment (the earliest unacknowledged one) per timeout ...
   /\ (c.rtoPrev >= 0 => off = c.una)
@@ -55,18 +66,20 @@ C5AfterEmit(c, off, len, t, emitMaxBefore) ==
             !.rtoGap = IF tmo /\ c.rtoPrev >= 0 THEN t - c.rtoPrev ELSE @,
             !.dataSegs = IF c.ackedData \/ IsRetx(c, off) THEN @ ELSE @ + 1,
             !.sent = @ \cup {<<off, off + len>>},
-            !.lastTx = (off :> t) @@ @,
+            !.lastTx = (<<off, off + len>> :> t) @@ @,
             !.recover = IF headRetx THEN Max2(@, emitMaxBefore) ELSE @,
             !.needRetx = -1, !.mayRetx = IF headRetx THEN FALSE ELSE @, !.fresh = IF headRetx THEN FALSE ELSE @]
 
-\* an ACK-bearing segment arrives: a = relative ack number, llen = its logical length (data + FIN), wnd = raw window field
-C5AfterAck(c0, a, llen, wnd, t) ==
+\* an ACK-bearing segment arrives: a = relative ack number, llen = its logical length (data + FIN), wnd = raw window field,
+\* sentEnd = highest offset the endpoint has put on the wire (+1 once its FIN is out).  An ACK beyond sentEnd acknowledges
+\* data that was never sent: it acknowledges nothing (RFC 793 p.72: "ignore"), it is only a sign of life.
+C5AfterAck(c0, a, llen, wnd, t, sentEnd) ==
   LET c == [c0 EXCEPT !.rtoPrev = -1, !.rtoGap = -1]          \* something arrived: the peer is not silent
       acked == a - 1
-      newly == Cardinality({s \in c.sent : s[2] <= acked /\ s[2] > c.una})
+      newly == Cardinality(Maximal({s \in c.sent : s[2] <= acked /\ s[2] > c.una}))
       outstanding == \E s \in c.sent : s[2] > acked
       strict == IF wnd = c.lastWnd THEN c.dupS + 1 ELSE 0
-  IN IF acked > c.una
+  IN IF acked > c.una /\ acked <= sentEnd
      THEN [c EXCEPT !.una = acked, !.ackedData = TRUE, !.segsAcked = @ + newly, !.dupS = 0, !.dupL = 0, !.lastWnd = wnd,
                     !.needRetx = -1, !.mayRetx = FALSE, !.fresh = TRUE]
      ELSE IF acked = c.una /\ llen = 0 /\ outstanding
